@@ -202,7 +202,7 @@ def allocfail(case, res):
             S.alloc_faults = True
             S.desync = True
             S.strict_close = False
-            S.sim.failalloc(nth, count)
+            S.sim.failalloc(nth, count, prm.get("site", (nth // 2) % 2))      # refusal by the accounting allocator / NULL from the C library inside it
         start = S.sim.stat()["allocs"]
         SCRIPTS[name](S)
         st = S.sim.stat()
@@ -261,7 +261,7 @@ def allocfail_passwd(case, res):
             S.alloc_faults = True
             S.desync = True
             S.strict_close = False
-            S.sim.failalloc(nth, count)
+            S.sim.failalloc(nth, count, prm.get("site", (nth // 2) % 2))      # refusal by the accounting allocator / NULL from the C library inside it
         start = S.sim.stat()["allocs"]
         p = S.request(a, "passwd", {"user": target, "password": new})
         p.expect_override = "any"
@@ -337,7 +337,7 @@ def allocfail_ns(case, res):
             S.alloc_faults = True
             S.desync = True
             S.strict_close = False
-            S.sim.failalloc(nth, count)
+            S.sim.failalloc(nth, count, prm.get("site", (nth // 2) % 2))      # refusal by the accounting allocator / NULL from the C library inside it
         start = S.sim.stat()["allocs"]
         if op == "change":
             p = S.request(o, "change", {"path": "s/a", "value": new})
@@ -438,7 +438,7 @@ def allocfail_fetch(case, res):
         S.desync = True
         S.strict_close = False
         if nth is not None:
-            S.sim.failalloc(nth, count)
+            S.sim.failalloc(nth, count, prm.get("site", (nth // 2) % 2))      # refusal by the accounting allocator / NULL from the C library inside it
         start = S.sim.stat()["allocs"]
         p = S.request(sub, "fetch", {"id": "f", "path": rule}) if op == "fetch" else S.request(sub, "unfetch", {"id": "f"})
         p.expect_override = "any"
